@@ -38,6 +38,8 @@ pub enum Wr {
     Collect,
     GuardLen,
     FallbackList,
+    /// `.count()`: the number of occurrences; every occurrence still has to be valid
+    Count,
 }
 #[derive(Clone, Copy, Debug, PartialEq, Eq, Serialize, Deserialize)]
 pub enum Ctx6 {
@@ -73,12 +75,13 @@ fn out_ty(w: Wr) -> Ty6 {
     match w {
         Wr::Guard | Wr::Hide | Wr::Fallback | Wr::FallbackWithOk | Wr::FallbackWithErr | Wr::Last => Ty6::Scalar,
         Wr::Optional | Wr::OptionalCatch => Ty6::Opt,
+        Wr::Count => Ty6::Opt, // a terminal type: only `hide` may follow
         _ => Ty6::List,
     }
 }
 fn applicable(cur: Ty6) -> Vec<Wr> {
     match cur {
-        Ty6::Scalar => vec![Wr::Guard, Wr::Hide, Wr::Fallback, Wr::FallbackWithOk, Wr::FallbackWithErr, Wr::Last, Wr::Optional, Wr::OptionalCatch, Wr::Many, Wr::ManyCatch, Wr::Some, Wr::SomeCatch, Wr::Collect],
+        Ty6::Scalar => vec![Wr::Guard, Wr::Hide, Wr::Fallback, Wr::FallbackWithOk, Wr::FallbackWithErr, Wr::Last, Wr::Optional, Wr::OptionalCatch, Wr::Many, Wr::ManyCatch, Wr::Some, Wr::SomeCatch, Wr::Collect, Wr::Count],
         Ty6::Opt => vec![Wr::Hide],
         Ty6::List => vec![Wr::GuardLen, Wr::Hide, Wr::FallbackList],
     }
@@ -130,6 +133,7 @@ fn apply(w: Wr, p: P) -> P {
         Wr::ManyCatch => P::Many(p.bx(), true),
         Wr::Some => P::Some_(p.bx(), false),
         Wr::SomeCatch => P::Some_(p.bx(), true),
+        Wr::Count => P::Count(p.bx()),
         Wr::Collect => P::Collect(p.bx(), false),
         Wr::GuardLen => P::Guard(p.bx(), GuardK::Len2),
         Wr::FallbackList => P::Fallback(p.bx(), Val::L(vec![Val::N(5)]), false),
@@ -177,7 +181,7 @@ fn absent_ok(s: &[Wr]) -> bool {
             Wr::Guard | Wr::Hide | Wr::Last | Wr::GuardLen => ok,
             Wr::Fallback | Wr::FallbackWithOk | Wr::FallbackList => true,
             Wr::FallbackWithErr => ok,
-            Wr::Optional | Wr::OptionalCatch | Wr::Many | Wr::ManyCatch | Wr::Collect => true,
+            Wr::Optional | Wr::OptionalCatch | Wr::Many | Wr::ManyCatch | Wr::Collect | Wr::Count => true,
             Wr::Some | Wr::SomeCatch => ok,
         };
     }
